@@ -341,6 +341,23 @@ def lattice_c05(ctx):
                  [[(form, 'poly_ell=0'), (form, 'poly_ell=1'), (form, 'poly_ell=2')] for form in ('primal', 'dual')])
     if why:
         return why, nsolves
+    # objective and constraints with EVEN exponents only (the all-even branch of the dual polynomial cone hands affine images of the dual
+    # variable straight to a conditional dual SAGE cone), a user domain |x| <= 2, p = 0 and p = 1: concave objectives, minimum on the boundary
+    for name, pe_, ge_, true_min in (('-0.4x^4 - 3.4 s.t. 1.2 - 1.2x^2 >= 0 over |x| <= 2', -0.4 * x[0] ** 4 - 3.4, [1.2 - 1.2 * x[0] ** 2], -3.8),
+                                     ('0.2 - 1.5x^4 s.t. 1 - x^2 >= 0 over |x| <= 2', 0.2 - 1.5 * x[0] ** 4, [1 - x[0] ** 2], -1.3)):
+        Xe = sp.infer_domain(pe_, [4 - x[0] ** 2], [])
+        vals, groups = {}, []
+        for lev_p in (0, 1):
+            grp = []
+            for form in ('primal', 'dual'):
+                k = (form, 'p=%d' % lev_p)
+                vals[k] = _solve(lambda: sp.poly_constrained_relaxation(pe_, ge_, [], Xe, form=form, p=lev_p, q=1, ell=0))
+                nsolves += 1
+                grp.append(k)
+            groups.append(grp)
+        why = _judge(vals, true_min, 'min %s (even exponents only)' % name, groups, [[(f_, 'p=0'), (f_, 'p=1')] for f_ in ('primal', 'dual')])
+        if why:
+            return why, nsolves
     # constrained, both reflections (the minimiser lies in different orthants)
     for sg in (1.0, -1.0):
         for name, p, gts, pts, levels in (
